@@ -26,6 +26,18 @@ TEMPLATES = [
 ]
 
 
+PRIORITY = [
+    ("a(i,j,k) = b(i,j,k) + c(i,j,k)", {"a": "dds", "b": "dds", "c": "dds"}),
+    ("a(i,j,k) = b(i,j,k) * c(i,j,k)", {"a": "dds", "b": "dds", "c": "dds"}),
+    ("a(i,j,k) = b(i,j,k)", {"a": "dds", "b": "dds"}),
+    ("a(i,j,k) = b(i,j,k)", {"a": "dss", "b": "dss"}),
+    ("a(i,j,k) = b(i,j,k)", {"a": "sds", "b": "sds"}),
+    ("a(i,j) = b(i,j,k) * c(k)", {"a": "dd", "b": "dds", "c": "s"}),
+    ("a(i,j,k) = b(i,j,k) - c(i,j,k)", {"a": "sss", "b": "dds", "c": "sss"}),
+    ("a(i,j) = b(i,j) + c(i,j)", {"a": "ds", "b": "ds", "c": "ds"}),
+]
+
+
 def monomials(e):
     from tensora.expression import ast as X
     if isinstance(e, (X.Add, X.Subtract)):
@@ -112,6 +124,8 @@ def main():
         for fm in rest[:1]:
             problems.append((tpl, fm))
     rng.shuffle(problems)
+    # always taken: a compressed level below one or two dense levels (order 3), with and without a leading factor
+    problems = [(t, f) for t, f in PRIORITY] + [p for p in problems if (p[0], p[1]) not in [(t, f) for t, f in PRIORITY]]
     index = {"shards": [], "skipped": {}, "context_cases": []}
     defs, cases, metas = [], [], []
     shard_no = 0
@@ -122,7 +136,7 @@ def main():
         if not cases:
             return
         name = f"{prefix}_{shard_no}"
-        text = M.HEADER + "\n".join(defs) + "\nDefinition cases : list verdict := [\n  " + ";\n  ".join(cases) + "\n].\n"
+        text = M.HEADER + "From TV Require Import spec.IRRunHist.\n" + "\n".join(defs) + "\nDefinition cases : list verdict := [\n  " + ";\n  ".join(cases) + "\n].\n"
         text += "Eval vm_compute in (failing_from 0 (fun v => v) cases).\n"
         open(os.path.join(outdir, name + ".v"), "w").write(text)
         index["shards"].append({"name": name, "cases": metas})
@@ -137,7 +151,7 @@ def main():
         idx = sorted(set(a.target.indexes) | set(a.expression.index_participants().keys()))
         ks = [k for k in idx if condition(a, fm, k)]
         try:
-            prob, fns = D.generate_functions(tpl, fm, ("evaluate",))
+            prob, fns = D.generate_functions(tpl, fm, ("evaluate", "assemble", "compute"))
         except Exception as e:
             index["skipped"][type(e).__name__] = index["skipped"].get(type(e).__name__, 0) + 1
             continue
@@ -155,6 +169,8 @@ def main():
             continue
         nprob += 1
         defs.append(f"Definition f{pno} := {D.coq_function(fns[0])}.")
+        defs.append(f"Definition fa{pno} := {D.coq_function(fns[1])}.")
+        defs.append(f"Definition fc{pno} := {D.coq_function(fns[2])}.")
         names = list(prob.formats.keys())
         out_modes = "".join(m.character for m in prob.formats[names[0]].modes)
         for k in ks:
@@ -186,6 +202,11 @@ def main():
                 cases.append(f"same_iters {cfg.get('fuel', 3000000)} f{pno} {base} {tins(big)}")
                 metas.append({"assignment": tpl, "formats": fm, "index": k, "sizes": sizes, "scale": sc, "kind": "iters",
                               "inputs": {n: {"dims": v["dims"], "entries": [[list(c), x] for c, x in v["entries"].items()]} for n, v in ins.items()}})
+                if sc == scales[-1]:
+                    # the stand-alone assemble and compute kernels on one output (largest scale only)
+                    cases.append(f"same_iters_hist {cfg.get('fuel', 3000000)} [fa{pno}; fc{pno}] {base} {tins(big)}")
+                    metas.append({"assignment": tpl, "formats": fm, "index": k, "sizes": sizes, "scale": sc, "kind": "iters assemble;compute",
+                                  "inputs": {n: {"dims": v["dims"], "entries": [[list(c), x] for c, x in v["entries"].items()]} for n, v in ins.items()}})
         if len(cases) >= cfg.get("per_shard", 20):
             flush()
     flush()
